@@ -39,7 +39,7 @@ def gen_dataset(rng, kind, small=False):
     nrg = rng.choice([2, 3]) if small else rng.choice([2, 3, 4])
     per = rng.choice([20, 37]) if small else rng.choice([25, 60, 128])
     n = nrg * per
-    base = ["i", "f", "s"] if small else ["i", "f", "s", "t"]
+    base = ["i", "f", "s", "t"]
     extra = [c for c in ["c", "o"] if rng.random() < (0.5 if small else 0.8)]
     spec = {"kind": kind, "n": n, "seed": rng.randrange(10 ** 6), "cols": base + extra,
             "offsets": [k * per for k in range(nrg)], "compression": rng.choice([None, None, "SNAPPY", "GZIP"])}
@@ -164,9 +164,11 @@ def with_alarm(sec, fn, *a):
 class Solo:
     """solo results per dataset path, computed on handles of their own"""
 
-    def __init__(self, path):
+    def __init__(self, path, ctx=None, spec=None):
         self.path = path
         self.cache = {}
+        self.ctx = ctx
+        self.spec = spec
 
     def __call__(self, op):
         k = okey(op)
@@ -175,6 +177,10 @@ class Solo:
                 self.cache[k] = with_alarm(60, conc.solo_result, self.path, op)
             except TimeoutError as e:
                 self.cache[k] = ["EXC", "TimeoutError", str(e)]
+                if self.ctx is not None:
+                    self.ctx.fail({"component": "shared-handle", "op": op["op"], "symptom": "hang", "mode": "alone"},
+                                  {"mode": "sequence", "dataset": self.spec, "ops": [op]}, "%s does not return even when run alone: %s" % (k, e))
+                    raise Hung("%s alone" % k)
         return self.cache[k]
 
 
@@ -240,7 +246,7 @@ def run(ctx):
         t0 = time.time()
     # Every execution of fastparquet code happens in forked worker processes (C.pmap): a worker that crashes or hangs is an
     # observation (reported as a failure of the property with the job as replay), never the end or a stall of the check.
-    jt = 180 if quick else 1200
+    jt = 420 if quick else 2400
     # ---- datasets -----------------------------------------------------------------------------
     specs = []
     for kind in (["single", "hive"] if quick else ["single", "hive", "multi", "single"]):
@@ -259,17 +265,13 @@ def run(ctx):
     lap("build")
     if not datasets:
         return
-    # ---- tie 1: the footprint premise, operation by operation --------------------------------
-    pq = C.Pqref()
-    footprint_premise(ctx, pq, datasets, rng, quick, jt)
-    pq.close()
-    lap("footprint")
-    # ---- everything else: corpus, schema_tree model (information), forced / multi-switch / storm schedules, free-running
-    #      threads, part writers - one job per (phase, dataset or chunk of rounds)
-    base["broken"] = bool(ctx.broken)
+    # ---- one pool of jobs: footprint traces (tie 1) together with corpus, schema_tree model (information), forced /
+    #      multi-switch / storm schedules, free-running threads, part writers - one job per (phase, dataset or chunk)
+    fp_jobs, fp_state = footprint_jobs(ctx, datasets, rng, quick)
+    base["broken"] = False
     jobs = [dict(base, phase="corpus"), dict(base, phase="tree_model"), dict(base, phase="part_writers"),
             dict(base, phase="multi_switch", datasets=datasets)]
-    fb = 60 if quick else 600
+    fb = 42 if quick else 600
     for di, d in enumerate(datasets):
         jobs.append(dict(base, phase="forced", datasets=[d], budget=max(6, fb // len(datasets)), tag=di))
         jobs.append(dict(base, phase="storm", datasets=[d], share=len(datasets), tag=di))
@@ -277,8 +279,25 @@ def run(ctx):
     chunk = 8 if quick else 24
     for r0 in range(0, rounds, chunk):
         jobs.append(dict(base, phase="stress", datasets=datasets, r0=r0, r1=min(rounds, r0 + chunk), tag=r0))
-    apply_jobs(ctx, jobs, jt)
-    lap("oracles")
+    # longest jobs first
+    order = [j for j in fp_jobs if j["fp_phase"] == "warm"] + [j for j in jobs if j["phase"] == "forced"] + \
+            [j for j in fp_jobs if j["fp_phase"] != "warm"] + [j for j in jobs if j["phase"] != "forced"]
+    values = apply_jobs(ctx, order, jt, func=_any_job)
+    by_id = {id(j): v for j, v in zip(order, values)}
+    lap("jobs")
+    pq = C.Pqref()
+    footprint_premise(ctx, pq, datasets, fp_jobs, [by_id[id(j)] for j in fp_jobs], fp_state)
+    pq.close()
+    lap("footprint_check")
+    if ctx.broken and not ctx.failures:
+        # the premise is broken but no failing schedule was met yet: search harder (storm with the raised budget)
+        base["broken"] = True
+        apply_jobs(ctx, [dict(base, phase="storm", datasets=[d], share=len(datasets), tag="b%d" % di) for di, d in enumerate(datasets)], jt)
+        lap("storm_after_broken_premise")
+
+
+def _any_job(job):
+    return _fp_job(job) if job["phase"] == "footprint" else _job(job)
 
 
 class Hung(Exception):
@@ -345,7 +364,7 @@ def _job(job):
         value = {"datasets": ds}
     else:
       try:
-          datasets = [(sp, pa, Solo(pa)) for sp, pa in job.get("datasets", [])]
+          datasets = [(sp, pa, Solo(pa, rec, sp)) for sp, pa in job.get("datasets", [])]
           if ph == "corpus":
               run_corpus(rec, os.path.join(job["scratch"], "corpus"))
           elif ph == "tree_model":
@@ -423,7 +442,7 @@ def run_corpus(ctx, scratch):
         n += 1
         spec = case["dataset"]
         path = conc.build_dataset(spec, root)
-        solo = Solo(path)
+        solo = Solo(path, ctx, spec)
         ctx.count("corpus", os.path.basename(f))
         if case["mode"] == "forced":
             check_pair(ctx, spec, path, solo, case["ops"], case["plan"], "corpus", case.get("granularity") == "opcode")
@@ -462,6 +481,10 @@ FIXED_OPS = [
     {"op": "count", "filters": [["s", "==", "r3"]]},
     {"op": "columns"},
     {"op": "pickle"},
+    # converted / logical types: the memoised bound is NOT the raw decoded statistic (timestamp, string)
+    {"op": "to_pandas", "columns": ["i", "t"], "filters": [["t", ">=", {"dt": "2020-01-01T20:00"}]]},
+    {"op": "count", "filters": [["t", "<", {"dt": "2020-01-02T03:00"}], ["s", ">=", "r2"]]},
+    {"op": "slice", "i": 0, "j": 2, "filters": [["t", ">", {"dt": "2020-01-01T05:00"}]]},
 ]
 
 
@@ -477,21 +500,26 @@ def _fp_job(job):
     if opc and not conc.warm_opcodes():
         return {"calls": [], "extra": {"opcode_tracing": False}, "notes": [], "value": []}
     out = []
+    notes = []
     for op in ops:
         pf = warm if warm is not None else ParquetFile(path)
         try:
-            res, changes, nlines, scr = with_alarm(90, conc.trace_footprint, pf, op, None, None, conc.FULL_EVERY, opc)
-            want = with_alarm(60, conc.solo_result, path, op)
+            want = with_alarm(120, conc.solo_result, path, op)
         except TimeoutError as e:
-            out.append((op, ["EXC", "TimeoutError", str(e)], [("start", {})], 0, 0, None))
+            out.append((op, ["EXC", "TimeoutError", "alone: " + str(e)], [("start", {})], 0, 0, None))
             break
+        try:
+            res, changes, nlines, scr = with_alarm((600 if not job["quick"] else 180) if opc else 120,
+                                                   conc.trace_footprint, pf, op, None, None, conc.FULL_EVERY, opc)
+        except TimeoutError:
+            # the operation returns when run alone (just checked): the monitor was too slow on this machine right now
+            notes.append("footprint of %s (%s) not taken: the traced run exceeded its time budget" % (okey(op), phase))
+            continue
         out.append((op, conc.canon(res), changes, nlines, scr, want))
-    return {"calls": [], "extra": {}, "notes": [], "value": out}
+    return {"calls": [], "extra": {"footprints_skipped_slow": len(notes)}, "notes": notes, "value": out}
 
 
-def footprint_premise(ctx, pq, datasets, rng, quick, jt):
-    """each operation alone under the line tracer; every transition of the state reachable from the
-    parent handle must be a memo add, and all traces must agree on one value per key"""
+def footprint_jobs(ctx, datasets, rng, quick):
     jobs, owner = [], []
     sels = {}
     mk = lambda path, ph, ops: {"phase": "footprint", "path": path, "fp_phase": ph, "ops": ops, "quick": quick, "seed": ctx.seed}
@@ -501,18 +529,27 @@ def footprint_premise(ctx, pq, datasets, rng, quick, jt):
         for i in range(0, len(ops), 3):
             jobs.append(mk(path, "fresh", ops[i:i + 3]))
             owner.append(di)
-        wsel = (ops[1:3] + ops[3:4] + ops[8:10] + ops[11:12]) if quick else ops
+        wsel = (ops[1:3] + ops[3:4] + ops[8:10] + ops[11:14]) if quick else ops
         sels[di] = wsel
-        jobs.append(mk(path, "warm", wsel))
-        owner.append(di)
+        half = (len(wsel) + 1) // 2           # two warm handles per dataset (shorter critical path)
+        for part in (wsel[:half], wsel[half:]):
+            if part:
+                jobs.append(mk(path, "warm", part))
+                owner.append(di)
         # the same premise at bytecode granularity (every instruction of fastparquet frames) for the short operations,
         # in the thorough tier for all
-        short = [o for o in ops if o["op"] in ("slice_only", "index", "count", "statistics", "columns", "head")]
-        osel = short[:6] if quick else ops
+        short = [o for o in ops if o["op"] in ("slice_only", "count", "statistics", "columns", "head")]
+        osel = (short[:3] + short[-2:]) if quick else ops
         for i in range(0, len(osel), 3):
             jobs.append(mk(path, "fresh-opcode", osel[i:i + 3]))
             owner.append(di)
-    results = apply_jobs(ctx, jobs, jt, func=_fp_job)
+    return jobs, {"owner": owner, "sels": sels}
+
+
+def footprint_premise(ctx, pq, datasets, jobs, results, state):
+    """each operation alone under the line tracer; every transition of the state reachable from the
+    parent handle must be a memo add, and all traces must agree on one value per key"""
+    owner, sels = state["owner"], state["sels"]
     for di, (spec, path) in enumerate(datasets):
         inter = conc.Interner()
         traces, metas = [], []
@@ -536,7 +573,7 @@ def footprint_premise(ctx, pq, datasets, rng, quick, jt):
                 ctx.extra["dtypes_overwrites_seen"] += scr
                 # the traced run is itself a solo/sequential run: its result must be the solo result
                 if got != want:
-                    sel = sels[di]
+                    sel = job["ops"]
                     ctx.fail({"component": "shared-handle", "op": op["op"], "symptom": symptom(got), "mode": "sequential-" + phase},
                              {"mode": "sequence", "dataset": spec, "ops": [o for o in sel[:sel.index(op) + 1]] if phase == "warm" else [op]},
                              "result on a %s handle differs from the solo result: %r vs %r" % (phase, got, want))
@@ -643,11 +680,24 @@ def write_points(pf_path, op, root=None):
     return len(changes) - 1, nlines
 
 
+def confirmed_hang(ctx, path, ops, rng_seed=0):
+    """a scheduler time-out may be slowness of the traced run on a loaded machine: the same operations free-running
+    (untraced) on a fresh shared handle decide - only if they do not finish either is it reported as a hang"""
+    import random
+    from fastparquet import ParquetFile
+    early, late, hung = conc.stress_run(ParquetFile(path), [[o] for o in ops], random.Random(rng_seed))
+    if not hung:
+        ctx.count("inconclusive", "scheduler time-out, operations finish when free-running")
+    return hung
+
+
 def check_pair(ctx, spec, path, solo, ops, plan, what, opcodes=False):
     """one forced schedule on a fresh shared handle; both results against the solo results"""
     from fastparquet import ParquetFile
     pf = ParquetFile(path)
-    res, steps, dead = conc.forced_run(pf, ops, [list(p) for p in plan], opcodes=opcodes)
+    res, steps, dead = conc.forced_run(pf, ops, [list(p) for p in plan], opcodes=opcodes, timeout=150.0 if opcodes else 60.0)
+    if dead and not confirmed_hang(ctx, path, ops):
+        return False
     got = [conc.canon(r) for r in res]
     case = {"mode": "forced", "dataset": spec, "ops": ops, "plan": plan}
     if opcodes:
@@ -699,6 +749,14 @@ def forced_search(ctx, datasets, rng, quick, budget=None):
                     # read side of the discipline: the same operation (reader of the very keys a writes) right after a's k-th write
                     check_pair(ctx, spec, path, solo, [a, a], [[0, k, "writes"], [1, BIG, "lines"]], "after-write-k-same-op", opc)
                     done += 1
+            # both threads in the middle of their shared writes: a after its k-th write, a second writer until its j-th, a finishes
+            if nw > 0:
+                b2 = rng.choice([x for x in cand if wp.get(okey(x), (1, 0))[0] > 0] or [a])
+                nw2 = wp[okey(b2)][0] if okey(b2) in wp else nw
+                k = rng.randrange(1, nw + 1)
+                j = rng.randrange(1, max(1, nw2) + 1)
+                check_pair(ctx, spec, path, solo, [a, b2], [[0, k, "writes"], [1, j, "writes"], [0, BIG, "lines"], [1, BIG, "lines"]], "double-after-write", opc)
+                done += 1
             # a preemption at an arbitrary line (instruction) of a
             if nl > 2:
                 k = rng.randrange(1, nl * (4 if opc else 1))
@@ -718,7 +776,9 @@ def multi_switch(ctx, datasets, rng, quick):
             ops[0] = gen_op(rng, spec, rng.choice(["slice", "head", "iter", "count", "statistics"]))
         plan = [[rng.randrange(nt), rng.choice([1, 2, 3, 5, 10, 30, 100, 300]), "lines"] for _ in range(rng.choice([6, 12, 25, 60]))]
         pf = ParquetFile(path)
-        res, steps, dead = conc.forced_run(pf, ops, [list(p) for p in plan])
+        res, steps, dead = conc.forced_run(pf, ops, [list(p) for p in plan], timeout=60.0)
+        if dead and not confirmed_hang(ctx, path, ops):
+            continue
         got = [conc.canon(x) for x in res]
         case = {"mode": "forced", "dataset": spec, "ops": ops, "plan": plan}
         ctx.case(case)
@@ -736,7 +796,9 @@ def multi_switch(ctx, datasets, rng, quick):
 def check_storm(ctx, spec, path, solo, a, b, every, phase, opcodes=False):
     from fastparquet import ParquetFile
     pf = ParquetFile(path)
-    ares, bres, calls, dead = conc.storm_run(pf, a, b, every=every, phase=phase, opcodes=opcodes)
+    ares, bres, calls, dead = conc.storm_run(pf, a, b, every=every, phase=phase, opcodes=opcodes, timeout=90.0)
+    if dead and not confirmed_hang(ctx, path, [a, b]):
+        return False
     gb = conc.canon(bres)
     case = {"mode": "storm", "dataset": spec, "ops": [a, b], "every": every, "phase": phase}
     if opcodes:
@@ -774,10 +836,10 @@ def storm_search(ctx, datasets, rng, quick, share=None):
     if broken:
         npairs, max_calls = (24, 2500) if quick else (96, 8000)
     for n_, (spec, path, solo) in enumerate(datasets):
-        writers = [{"op": "count", "filters": [["i", ">", 1]]}, {"op": "statistics"}, {"op": "slice_only", "i": 0, "j": 1},
+        writers = [{"op": "count", "filters": [["t", ">", {"dt": "2020-01-01T07:00"}]]}, {"op": "statistics"}, {"op": "slice_only", "i": 0, "j": 1},
                    {"op": "head", "n": 3, "columns": ["i"]}, {"op": "to_pandas", "columns": ["f"], "filters": [["f", ">", 5.0]]},
                    {"op": "index", "i": 0, "columns": ["i"]}]
-        readers = [{"op": "columns"}, {"op": "to_pandas"}, {"op": "statistics"}, {"op": "count", "filters": [["i", ">", 1]]},
+        readers = [{"op": "columns"}, {"op": "to_pandas"}, {"op": "statistics"}, {"op": "count", "filters": [["t", "<=", {"dt": "2020-01-02T01:00"}]]},
                    {"op": "pickle"}, {"op": "head", "n": 4}, {"op": "iter", "columns": ["i", "s"]},
                    {"op": "to_pandas", "columns": ["s", "i"], "filters": [["i", "<=", spec.get("offsets", [0, 1])[1]]]}]
         if spec["kind"] == "file":
@@ -810,6 +872,12 @@ def stress(ctx, datasets, rng, quick, r0=0, r1=None):
             # make sure derived handles and filtered reads meet plain reads in every round
             lists[0][0] = gen_op(rng, spec, rng.choice(["slice", "iter", "head", "index"]))
             lists[1][0] = gen_op(rng, spec, "to_pandas")
+            if "t" in spec.get("cols", []) and spec["kind"] != "file":
+                h = rng.randrange(1, max(2, spec["n"]))
+                tf = [["t", rng.choice([">", ">=", "<", "<="]), {"dt": "2020-01-%02dT%02d:00" % (1 + h // 24, h % 24)}]]
+                for ti in range(nt):
+                    if ti % 2 == 0 or nt <= 4:
+                        lists[ti].insert(0, {"op": rng.choice(["to_pandas", "count", "to_pandas"]), "filters": tf})
             # same shape, different row groups: two reads whose outputs have equal size and columns but different content
             offs = spec.get("offsets", [])
             if len(offs) >= 2 and nt >= 2:
@@ -911,8 +979,13 @@ def part_round(spec, scratch, tag, rng, trace=False, reps=1):
     from fastparquet import writer
     df = conc.build_frame(spec)
     nt = spec["nthreads"]
-    per = max(1, len(df) // nt)
-    frames = [df.iloc[i * per:(i + 1) * per if i < nt - 1 else len(df)] for i in range(nt)]
+    # parts of different sizes (1, 2, 3, ... shares of the frame; every part non-empty)
+    w = [1 + (i % 3) for i in range(nt)]
+    cuts = [0]
+    for i in range(nt):
+        cuts.append(max(cuts[-1] + 1, min(len(df) - (nt - 1 - i), int(round(len(df) * sum(w[:i + 1]) / sum(w))))))
+    cuts[-1] = len(df)
+    frames = [df.iloc[cuts[i]:cuts[i + 1]] for i in range(nt)]
     root = os.path.join(scratch, tag)
     os.makedirs(root, exist_ok=True)
     fmd = writer.make_metadata(df)
@@ -941,6 +1014,9 @@ def part_round(spec, scratch, tag, rng, trace=False, reps=1):
         nw = max(len(ch) - 1 for ch in traces)
         nl = conc.count_steps(None, {"op": "part", "i": 0}, dict(shared, paths=paths("cnt")))
         plans = [[[0, k, "writes"], [1, 10 ** 9, "lines"]] for k in range(1, min(nw, 3) + 1)]
+        # both writers in the middle of their writes to the shared object: a after its k-th, b until its j-th, a finishes, b finishes
+        plans += [[[0, k, "writes"], [1, j, "writes"], [0, 10 ** 9, "lines"], [1, 10 ** 9, "lines"]]
+                  for k in range(1, min(nw, 3) + 1) for j in range(1, min(nw, 3) + 1)]
         plans += [[[0, rng.randrange(1, max(2, nl)), "lines"], [1, 10 ** 9, "lines"]] for _ in range(2)]
         plans.append([[0, max(1, nl - rng.randrange(1, 12)), "lines"], [1, 10 ** 9, "lines"]])
         for pi, plan in enumerate(plans):
@@ -951,10 +1027,17 @@ def part_round(spec, scratch, tag, rng, trace=False, reps=1):
                 g = conc.canon(res[t_])
                 if g != ref[i] or dead:
                     bad.append(["forced", "hang" if dead else symptom(g), i, g, ref[i], plan, [a, b]])
-    early, late, hung = conc.stress_run(None, [[{"op": "part", "i": i}] for i in range(nt)], rng, shared=shared)
-    for i in range(nt):
-        if late[i][0] != ref[i] or hung:
-            bad.append(["stress", "hang" if hung else symptom(late[i][0]), i, late[i][0], ref[i]])
+    # free-running writers; when the shared object is written at all (ownership premise broken) many more trials
+    trials = reps if not (traces and any(len(ch) > 1 for ch in traces)) else max(reps, 25)
+    for t_ in range(trials):
+        sh = shared if t_ == 0 else dict(shared, paths=paths("thr%d" % t_))
+        early, late, hung = conc.stress_run(None, [[{"op": "part", "i": i}] for i in range(nt)], rng, shared=sh)
+        nb = len(bad)
+        for i in range(nt):
+            if late[i][0] != ref[i] or hung:
+                bad.append(["stress", "hang" if hung else symptom(late[i][0]), i, late[i][0], ref[i], {"trial": t_}])
+        if len(bad) > nb:
+            break
     return {"bad": bad, "trace": traces}
 
 
